@@ -340,8 +340,9 @@ class Spy:
         return self.fn(arr, n, with_replacement, rng)
 
 
-CSC_HISTORIES = ["filter-samp", "transform-samp", "data-samp", "iter-samp", "subsampled-obs"]
-CSR_HISTORIES = ["fresh", "filter-obs", "transform-obs", "data-obs", "iter-obs", "subsampled-samp"]
+CSC_HISTORIES = ["filter-samp", "transform-samp", "data-samp", "iter-samp", "subsampled-obs", "used-doubled-samp"]
+CSR_HISTORIES = ["fresh", "filter-obs", "transform-obs", "data-obs", "iter-obs", "subsampled-samp", "used-doubled-obs",
+                 "used-renamed-samp", "used-renamed-obs"]
 
 
 def apply_history(t, h):
@@ -360,6 +361,20 @@ def apply_history(t, h):
             t.data(t.ids(axis=ax)[0], axis=ax)
     elif kind == "iter":
         list(t.iter(axis=ax))
+    elif kind in ("used-doubled", "used-renamed"):
+        # the table has already been subsampled (every mode), THEN changed in place keeping the same matrix /
+        # ID-array / metadata objects: the call under test is judged against the CURRENT content
+        t.subsample(1, axis=ax, seed=0)
+        t.subsample(1, axis=ax, by_id=True, seed=0)
+        t.subsample(1, axis=ax, with_replacement=True, seed=0)
+        if kind == "used-doubled":
+            t.transform(lambda v, i, m: v * 2, axis=ax, inplace=True)
+        else:
+            ids = [str(i) for i in t.ids(axis=ax)]
+            longest = max([len(i) for i in ids] + [1])
+            # new IDs longer than every existing one (fixed-width ID arrays), one ending in a blank
+            t.update_ids({i: i + "_" * (longest + 3) + (" " if k == 0 else "") for k, i in enumerate(ids)},
+                         axis=ax, inplace=True)
     elif kind == "subsampled":
         # the input is itself the result of an earlier subsample (all IDs drawn, so the counts stay)
         t = t.subsample(len(t.ids(axis=ax)), axis=ax, by_id=True, seed=0)
@@ -417,7 +432,7 @@ def call_recorded(mods, axis, fn):
     return res, spy.lay, rng, r, (g.calls if g else []), spy.args
 
 
-def judge(ctx, case, name, t, before, before_full, outcome, n, axis, mode, tg):
+def judge(ctx, case, name, t, before, before_full, outcome, n, axis, mode, tg, profile=None):
     """Lean evaluates `holds` on the implementation's result (and on the input afterwards) and compares
     with the model; side checks on the kernel and generator calls.  Returns (full case, result table)."""
     res, lay, rng, r, calls, kargs = outcome
@@ -439,7 +454,17 @@ def judge(ctx, case, name, t, before, before_full, outcome, n, axis, mode, tg):
         input_modified(ctx, full, tg, {"differs": what, "layout-before-call": case.get("layout")})
     if not resp["model_holds"] and resp["pre"]:
         ctx.diverge(full, "theorem model_holds contradicted by the driver", tg)
-    if not resp["holds"]:
+    model_empty = "ok" in resp["model"] and (not resp["model"]["ok"]["ids"] or not resp["model"]["ok"]["oids"])
+    if profile == "raise" and model_empty and resp["pre"]:
+        # the caller asked for empty tables to be refused (biom.err empty='raise'): the refusal is the configured
+        # reaction; the input must still be what it was
+        if res.get("error") == "TableException" and resp["clause"] != "input-unchanged":
+            ctx.count("empty result refused under errstate(empty='raise')")
+        elif "ok" in res:
+            ctx.diverge(full, "an empty result was returned although the error profile says empty='raise'", tg)
+        else:
+            ctx.fail(full, resp["clause"], tg, detail={"model": resp["model"]})
+    elif not resp["holds"]:
         ctx.fail(full, resp["clause"], tg, detail={"model": resp["model"]})
     else:
         if not resp["pre"]:
@@ -473,37 +498,128 @@ def judge(ctx, case, name, t, before, before_full, outcome, n, axis, mode, tg):
     return full, res
 
 
-def table_case(ctx, impls, spec, route, n, axis, mode, seed, tags=(), histories=None):
+SEED_KINDS = ["int", "int", "int", "zero", "npint", "generator"]
+
+
+def gen_extras(rng):
+    """rarely used spellings of the arguments, a non-default error profile, bystander tables, layout pokes"""
+    return {"seedkind": rng.choice(SEED_KINDS), "npn": rng.random() < 0.15, "positional": rng.random() < 0.15,
+            "profile": rng.choice([None, None, None, "raise", "warn", "call"]),
+            "bystanders": rng.random() < 0.3, "poke": rng.randrange(10 ** 6) if rng.random() < 0.3 else None}
+
+
+def seed_object(kind, seed):
+    if kind == "zero":
+        return 0
+    if kind == "npint":
+        return np.int64(seed)
+    if kind == "generator":
+        return np.random.default_rng(seed)
+    return seed
+
+
+def do_subsample(t, n, axis, mode, seedobj, extras):
+    import warnings
+    import biom.err as E
+    nn = np.int64(n) if extras.get("npn") else n
+    with warnings.catch_warnings():
+        warnings.simplefilter("ignore")
+        def call():
+            if extras.get("positional"):
+                return t.subsample(nn, axis, mode == "byid", mode == "with", seedobj)
+            return t.subsample(nn, axis=axis, by_id=(mode == "byid"), with_replacement=(mode == "with"), seed=seedobj)
+        if extras.get("profile"):
+            with E.errstate(empty=extras["profile"]):
+                return call()
+        return call()
+
+
+def derive_bystanders(t0, axis):
+    """tables derived from the source that stay alive during the call"""
+    out = {"transpose": t0.transpose(),
+           "sort_order": t0.sort_order(list(reversed(t0.ids(axis=axis))), axis=axis),
+           "filter-copy": t0.filter(lambda v, i, m: True, axis=axis, inplace=False),
+           "copy": t0.copy()}
+    return {k: (b, core.table_obs(b)) for k, b in out.items()}
+
+
+def check_bystanders(ctx, full, tg, bys, rng):
+    for k, (b, obs0) in bys.items():
+        if not sound(b) or core.table_obs(b) != obs0:
+            input_modified(ctx, full, tg + ["bystander=" + k], "a table derived from the input changed")
+        # still answers by-ID queries through its own lookups
+        if obs0["obs"] and obs0["samp"]:
+            i, j = rng.randrange(len(obs0["obs"])), rng.randrange(len(obs0["samp"]))
+            v = b.get_value_by_ids(obs0["obs"][i], obs0["samp"][j])
+            if core.frac(v) != obs0["rows"][i][j] or not b.exists(obs0["obs"][i], axis="observation"):
+                ctx.fail(full, "input-unchanged", tg + ["bystander=" + k, "by-id-lookup"],
+                         detail="a derived table no longer answers by-ID queries with its own content")
+
+
+def table_case(ctx, impls, spec, route, n, axis, mode, seed, tags=(), histories=None, extras=None):
     """one Table.subsample call, with the input brought into BOTH sparse layouts by a prior use"""
+    import random
+    import biom.err as E
     if histories is None:
         histories = [ctx.rng.choice(CSC_HISTORIES), ctx.rng.choice(CSR_HISTORIES)]
+    if extras is None:
+        extras = {"seedkind": "int"}
+    if extras.get("seedkind") == "zero":
+        seed = 0
     case0 = {"spec": core.spec_obs(spec), "route": route, "n": n, "axis": axis, "mode": mode, "seed": seed,
-             "histories": list(histories)}
+             "histories": list(histories), "extras": extras}
     totals_axis = [sum(r) for r in (spec["rows"] if axis == "observation" else zip(*spec["rows"]))]
     ctx.case(case0, nontrivial=any(t > 0 for t in totals_axis))
-    kw = dict(axis=axis, by_id=(mode == "byid"), with_replacement=(mode == "with"), seed=seed)
+    profile = extras.get("profile")
     for h in histories:
         for name, mods in impls:
-            t = apply_history(core.build(spec, route), h)
+            t0 = core.build(spec, route)
+            bys = derive_bystanders(t0, axis) if extras.get("bystanders") else {}
+            t = apply_history(t0, h)
+            if t is not t0:
+                bys["history-source"] = (t0, core.table_obs(t0))
+            poked = core.poke_layout(t, random.Random(extras["poke"])) if extras.get("poke") is not None else []
             layout = t.matrix_data.getformat()
-            case = dict(case0, history=h, layout=layout)
+            case = dict(case0, history=h, layout=layout, poked=poked)
             before = view(t, axis)
             before_full = core.table_obs(t)
-            outcome = call_recorded(mods, axis, lambda: t.subsample(n, **kw))
+            err_before = dict(E.geterr())
+            seedobj = seed_object(extras.get("seedkind"), seed)
+            outcome = call_recorded(mods, axis, lambda: do_subsample(t, n, axis, mode, seedobj, extras))
             tg = list(tags) + [name, "table", mode, "axis=" + axis, "route=" + route, "history=" + h,
-                               "layout=" + layout]
-            full, res = judge(ctx, case, name, t, before, before_full, outcome, n, axis, mode, tg)
+                               "layout=" + layout, "seed=" + str(extras.get("seedkind"))] + \
+                (["profile=" + profile] if profile else [])
+            full, res = judge(ctx, case, name, t, before, before_full, outcome, n, axis, mode, tg, profile)
+            if dict(E.geterr()) != err_before:
+                ctx.diverge(full, "the error profile is not what it was before the call", tg)
+                E.seterr(**err_before)
             r = outcome[3]
-            # same seed twice => the same table
-            if r is not None and sound(t):
+            if bys:
+                check_bystanders(ctx, full, tg, bys, ctx.rng)
+            # same seed, spelled as a plain int keyword => the same table
+            if r is not None:
                 t2 = apply_history(core.build(spec, route), h)
                 with kernels.use_kernels(mods):
-                    r2 = t2.subsample(n, **kw)
+                    r2 = do_subsample(t2, n, axis, mode, seed, {"profile": None})
                 o1, o2 = core.table_obs(r), core.table_obs(r2)
                 if o1 != o2:
                     ctx.fail(full, "same-seed-same-result", tg, detail={"first": o1, "second": o2})
+                if len(ctx._late) < 16:
+                    ctx._late.append((spec, route, h, n, axis, mode, seed, name, mods, o1, full, tg))
+            # in-place changes of the RESULT must not reach the input or any table derived from it
+            if r is not None and extras.get("bystanders") and r.shape[0] and r.shape[1]:
+                r.transform(lambda v, i, m: v * 3, axis=axis, inplace=True)
+                r.update_ids({i: str(i) + "_renamed_after_the_call" for i in r.ids(axis=axis)}, axis=axis, inplace=True)
+                if not sound(t) or core.table_obs(t) != before_full:
+                    input_modified(ctx, full, tg + ["result-aliases-input"],
+                                   "changing the returned table in place changed the input")
+                check_bystanders(ctx, full, tg + ["result-aliases-input"], bys, ctx.rng)
+                ctx.count("bystanders and result mutation checked")
             ctx.count("input layout=%s axis=%s mode=%s" % (layout, axis[:4], mode))
             ctx.count("history=" + h)
+            ctx.count("seed spelling=%s" % extras.get("seedkind"))
+            if profile:
+                ctx.count("error profile empty=%s" % profile)
             if "ok" in res:
                 ctx.count("table mode=%s axis=%s kept=%s dropped-other=%s" % (
                     mode, axis[:4], "all" if len(res["ok"]["ids"]) == len(before["ids"]) else
@@ -511,6 +627,45 @@ def table_case(ctx, impls, spec, route, n, axis, mode, seed, tags=(), histories=
                     len(res["ok"]["oids"]) < len(before["oids"])))
             else:
                 ctx.count("table mode=%s raised %s" % (mode, res["error"]))
+
+
+def late_recheck(ctx):
+    """process-level state: the first calls of the run, repeated at its end, must give what they gave"""
+    for spec, route, h, n, axis, mode, seed, name, mods, o1, full, tg in ctx._late:
+        t = apply_history(core.build(spec, route), h)
+        with kernels.use_kernels(mods):
+            o2 = core.table_obs(do_subsample(t, n, axis, mode, seed, {"profile": None}))
+        ctx.count("late re-check of an early call")
+        if o1 != o2:
+            ctx.fail(full, "same-seed-same-result", tg + ["late-recheck"], detail={"first": o1, "late": o2})
+
+
+def refused_calls(ctx, impls, spec, route, axis, history):
+    """documented refusals (n < 0; by_id together with with_replacement) leave the input unchanged and coherent"""
+    for name, mods in impls:
+        t = apply_history(core.build(spec, route), history)
+        before_full = core.table_obs(t)
+        for kw in (dict(n=-1, axis=axis), dict(n=1, axis=axis, by_id=True, with_replacement=True),
+                   dict(n=-3, axis=axis, by_id=True)):
+            case = {"op": "refused", "spec": core.spec_obs(spec), "route": route, "history": history, "kw": kw,
+                    "impl": name}
+            ctx.case(case)
+            tg = [name, "table", "refused-call", "axis=" + axis]
+            try:
+                with kernels.use_kernels(mods):
+                    t.subsample(**kw)
+                ctx.diverge(case, "a documented refusal did not raise", tg)
+            except ValueError:
+                ctx.count("refused call raises ValueError")
+            except Exception as e:
+                ctx.diverge(case, "a documented refusal raised %s" % type(e).__name__, tg)
+            if not sound(t) or core.table_obs(t) != before_full:
+                input_modified(ctx, case, tg, "a refused call changed the input")
+            ids = [str(i) for i in t.ids(axis=axis)]
+            if ids and (not t.exists(ids[0], axis=axis) or t.index(ids[-1], axis=axis) != len(ids) - 1
+                        or any(t.exists(u, axis=axis) for u in core.tricky_unknown_ids(ids))):
+                ctx.fail(case, "input-unchanged", tg + ["index-coherence"],
+                         detail="after a refused call the input's own index/exists answers are wrong")
 
 
 def generator_case(ctx, impls, spec, route, n, axis, by_id, pulls, history, tags=()):
@@ -555,6 +710,20 @@ def gen_count_spec(rng, max_n=6, max_m=6):
     elif c < 0.30:
         big = float(rng.choice([10 ** 9, 10 ** 6]))
         rows[rng.randrange(n)][rng.randrange(m)] = big
+    return spec
+
+
+def tricky_ids(rng, spec):
+    """ID text: IDs that differ by a trailing blank / newline / case / extension, non-ASCII, very long"""
+    for key in ("obs", "samp"):
+        ids = spec[key]
+        if len(ids) < 2 or rng.random() < 0.5:
+            continue
+        j, k = rng.sample(range(len(ids)), 2)
+        cand = rng.choice([ids[j] + " ", ids[j] + "\n", ids[j] + "0", ids[j].upper(), ids[j].lower(), " " + ids[j],
+                           ids[j] * 9, ids[j] + "é日本"])
+        if cand not in ids:
+            ids[k] = cand
     return spec
 
 
@@ -642,9 +811,15 @@ def run_all(ctx):
     ctx.assumptions = ["count tables: non-negative integer entries exactly representable in binary64 (<= 1e9 here)",
                        "n >= 1"]
     # fixed corpus first
-    for spec, route, n, axis, mode, seed in CORPUS:
+    ctx._late = []
+    for k, (spec, route, n, axis, mode, seed) in enumerate(CORPUS):
         table_case(ctx, impls, spec, route, n, axis, mode, seed, ("corpus",),
-                   histories=["fresh", "filter-samp", "filter-obs", "subsampled-obs", "subsampled-samp"])
+                   histories=["fresh", "filter-samp", "filter-obs", "subsampled-obs", "subsampled-samp",
+                              "used-doubled-samp", "used-renamed-obs"],
+                   extras={"seedkind": SEED_KINDS[2 + k % 4], "npn": k % 2 == 1, "positional": k % 3 == 1,
+                           "profile": [None, "raise", "warn", "call"][k % 4], "bystanders": True, "poke": k})
+    refused_calls(ctx, impls, CORPUS[3][0], "dense", "sample", "filter-samp")
+    refused_calls(ctx, impls, CORPUS[3][0], "csc", "observation", "fresh")
     # the rarefaction helper: the docstring's table, then the 4x3 table at depths below / at / above totals
     for spec, route, n, axis, mode, seed in CORPUS[3:8]:
         for by_id in (False, True):
@@ -679,13 +854,30 @@ def run_all(ctx):
                     tot = sum(rows[i_]) if axis == "observation" else sum(r[j_] for r in rows)
                     if tot == 0:
                         rows[i_][j_] = float(rng.randint(1, 4))
+        if rng.random() < 0.2:
+            tricky_ids(rng, spec)
         route = rng.choice(core.ROUTES)
         n = pick_n(rng, spec, axis, mode)
-        table_case(ctx, impls, spec, route, n, axis, mode, rng.randrange(10 ** 6), ("random",))
+        table_case(ctx, impls, spec, route, n, axis, mode, rng.randrange(10 ** 6), ("random",),
+                   extras=gen_extras(rng))
+        if i % 25 == 0:
+            refused_calls(ctx, impls, spec, route, axis, rng.choice(CSC_HISTORIES + CSR_HISTORIES))
         if i % 4 == 0:
             by_id = rng.random() < 0.4
             generator_case(ctx, impls, spec, route, pick_n(rng, spec, axis, "byid" if by_id else "without"), axis,
                            by_id, rng.choice([2, 3]), rng.choice(CSC_HISTORIES + CSR_HISTORIES), ("random",))
+    # size thresholds: many IDs on the subsampled axis / on the other axis
+    for k in range(6 if ctx.quick() else 40):
+        rng = ctx.rng
+        wide_axis = rng.choice(["sample", "observation"])
+        spec = core.wide_spec(rng, axis=wide_axis, classes=("count", "smallcount"), md=(k % 3 == 0))
+        axis = rng.choice(["sample", "observation"])
+        mode = ["without", "byid", "with"][k % 3]
+        table_case(ctx, impls, spec, rng.choice(core.ROUTES), pick_n(rng, spec, axis, mode), axis, mode,
+                   rng.randrange(10 ** 6), ("wide",), extras=gen_extras(rng))
+        ctx.count("wide table: %s IDs on the %s axis, subsampled along %s" % (
+            ">=64", wide_axis[:4], "it" if axis == wide_axis else "the other"))
+    late_recheck(ctx)
 
 
 def replay(ctx, rec):
@@ -710,9 +902,13 @@ def replay_one(ctx, rec):
                 "omd": [dict((k, __import__("json").loads(v)) for k, v in m.items()) for m in s["omd"]] if s.get("omd") else None,
                 "smd": [dict((k, __import__("json").loads(v)) for k, v in m.items()) for m in s["smd"]] if s.get("smd") else None,
                 "type": s.get("type")}
-        if case.get("op") == "generate_subsamples":
+        if case.get("op") == "refused":
+            refused_calls(ctx, impls, spec, case["route"], case["kw"]["axis"], case["history"])
+        elif case.get("op") == "generate_subsamples":
             generator_case(ctx, impls, spec, case["route"], case["n"], case["axis"], case["by_id"], case["pulls"],
                            case["history"], ("replay",))
         else:
+            ctx._late = []
+            hs = [case["history"]] if case.get("history") else case.get("histories")
             table_case(ctx, impls, spec, case["route"], case["n"], case["axis"], case["mode"], case["seed"],
-                       ("replay",), histories=case.get("histories"))
+                       ("replay",), histories=hs, extras=case.get("extras"))
